@@ -21,6 +21,7 @@ FINDINGS = {
     'F-C06-2': 'WINDOW_UPDATE on a reserved (remote) stream is accepted instead of being a connection error PROTOCOL_ERROR',
     'F-C06-3': 'increment_flow_control_window on a reserved (local) stream is permitted (WINDOW_UPDATE emitted)',
     'F-C06-4': 'PUSH_PROMISE on a closed stream is a connection error PROTOCOL_ERROR instead of STREAM_CLOSED',
+    'F-C06-5': '1xx HEADERS on a half-closed (remote) stream are a connection error PROTOCOL_ERROR instead of a stream error STREAM_CLOSED',
 }
 
 
@@ -128,6 +129,8 @@ def oracle(p):
                                     rule = FINDINGS['F-C06-3']
                                 elif inp == 7 and st == 6 and got == ('conn', 1):
                                     rule = FINDINGS['F-C06-4']
+                                elif inp == 14 and st == 4 and got == ('conn', 1):
+                                    rule = FINDINGS['F-C06-5']
                             bad.append({'rule': rule or 'the reaction to %s in stream state %d (closed_by %d) is not the one RFC 7540 section 5.1 prescribes' % (INPUTS[inp], st, cb),
                                         'step': i, 'detail': {'stream': sid, 'state': st, 'closed_by': cb, 'input': INPUTS[inp], 'rfc': want, 'observed': got}})
         prev = parts
@@ -158,6 +161,12 @@ def scenarios(run):
             for lo in (('IncrementWindow', 5, sid), ('SendData', sid, 1, False, None), ('EndStream', sid), ('ResetStream', sid, 8),
                        ('SendHeaders', sid, t2.RESP if not client else t2.REQ, 0, False, None, None, None)):
                 out.append((cfg, list(t2.zoo(client)) + [lo]))
+    # a client stream the server has ended while the client is still sending (half-closed remote), then late frames from the server
+    cfg = t2.default_cfg(True)
+    for f in (('Headers', 13, False, None, ('Decoded', t2.INFO)), ('Headers', 13, False, None, ('Decoded', t2.RESP)), ('Data', 13, 1, 1, False),
+              ('WindowUpdate', 13, 5), ('RstStream', 13, 8)):
+        out.append((cfg, list(t2.zoo(True)) + [('SendHeaders', 13, t2.REQ_POST, 0, False, None, None, None),
+                                                RX(('Headers', 13, True, None, ('Decoded', t2.RESP))), RX(f)]))
     return out
 
 
